@@ -7,6 +7,8 @@ package template
 import (
 	"bytes"
 	"fmt"
+	"github.com/google/safehtml"
+	"github.com/google/safehtml/internal/safehtmlutil"
 	"html"
 	"reflect"
 	"strings"
@@ -741,7 +743,70 @@ func mangle(c context, templateName string) string {
 	if c.state == stateAttr && c.attr.ambiguousValue {
 		s += "_ambiguousValue"
 	}
+	if class := valuePrefixClass(c); class != "" {
+		// How an action is sanitized depends on the static text in front of it in the value.
+		s += "_" + class
+	}
 	return s
+}
+
+// valuePrefixClass classifies the static text seen so far in the attribute value that c is
+// in by what it means for the sanitization of an action that follows it: nothing yet, a
+// prefix that ends in the path, one that ends in the query or fragment, an unsafe prefix,
+// or part of an enumerated value. It returns "" where the text makes no difference.
+func valuePrefixClass(c context) string {
+	if c.state != stateAttr || c.attr.ambiguousValue {
+		return ""
+	}
+	elems, attrs := c.element.names, c.attr.names
+	if len(elems) == 0 {
+		elems = []string{c.element.name}
+	}
+	if len(attrs) == 0 {
+		attrs = []string{c.attr.name}
+	}
+	class := ""
+	for _, elem := range elems {
+		for _, attr := range attrs {
+			sc, err := sanitizationContextForAttrVal(elem, attr, c.linkRel)
+			if err != nil {
+				continue
+			}
+			switch {
+			case sc.isEnum():
+				if c.attr.value != "" {
+					return "partialValue"
+				}
+			case sc.isURLorTrustedResourceURL():
+				decoded := html.UnescapeString(c.attr.value)
+				switch {
+				case c.attr.value == "":
+					class = "urlStart"
+				case sc == sanitizationContextTrustedResourceURL:
+					if !safehtmlutil.IsSafeTrustedResourceURLPrefix(decoded) {
+						return "unsafePrefix"
+					}
+					class = "afterTrustedPrefix"
+				case startsWithFullySpecifiedSchemePattern.MatchString(decoded):
+					if safehtml.URLSanitized(decoded).String() != decoded {
+						return "unsafePrefix"
+					}
+					class = "afterPathPrefix"
+					if strings.ContainsAny(decoded, "#?") {
+						class = "afterQueryPrefix"
+					}
+				case strings.ContainsAny(decoded, "#?"):
+					class = "afterQueryPrefix"
+				case strings.Contains(decoded, "/"):
+					class = "afterPathPrefix"
+				default:
+					// The text may still become part of a scheme.
+					return "unsafePrefix"
+				}
+			}
+		}
+	}
+	return class
 }
 
 // escapeTree escapes the named template starting in the given context as
